@@ -248,6 +248,30 @@ pub fn types_overlap<T: TypeLookup>(self_id: usize, pattern_id: usize, lookup: &
     )
 }
 
+/// Whether a type mentions `Cycle` anywhere inside it (the id graph is acyclic).
+fn contains_back_reference<T: TypeLookup>(type_id: usize, lookup: &T) -> bool {
+    let ids: Vec<usize> = match lookup.lookup_type(type_id) {
+        Some(Type::Cycle(_)) => return true,
+        Some(Type::Union(ids)) => ids.clone(),
+        Some(Type::Tuple(tuple_id)) => match lookup.lookup_tuple(*tuple_id) {
+            Some(info) => info.fields.iter().map(|(_, t)| *t).collect(),
+            None => return false,
+        },
+        Some(Type::Partial { fields, .. }) => fields.iter().map(|(_, t)| *t).collect(),
+        Some(Type::Callable {
+            parameter,
+            result,
+            receive,
+        }) => vec![*parameter, *result, *receive],
+        Some(Type::Process { send, receive }) => {
+            send.iter().chain(receive.iter()).copied().collect()
+        }
+        _ => return false,
+    };
+    ids.into_iter()
+        .any(|id| contains_back_reference(id, lookup))
+}
+
 /// Unified implementation of type relation checking.
 ///
 /// When `mode` is `All` (used by `is_compatible`):
@@ -265,8 +289,9 @@ fn check_type_relation<T: TypeLookup>(
     assumptions: &mut HashSet<(usize, usize)>,
     type_stack: &mut TypeStacks,
 ) -> bool {
-    // Fast path: same ID always satisfies the relation
-    if self_id == pattern_id {
+    // Fast path: the same ID satisfies the relation — unless the type contains a back reference,
+    // whose meaning depends on the enclosing recursive type of each side.
+    if self_id == pattern_id && !contains_back_reference(self_id, lookup) {
         return true;
     }
 
@@ -303,8 +328,24 @@ fn check_type_relation<T: TypeLookup>(
         // Type variables match anything
         (Type::Variable(_), _) | (_, Type::Variable(_)) => true,
 
-        // When both are cycles with same depth, they refer to the same recursive type
-        (Type::Cycle(d1), Type::Cycle(d2)) if d1 == d2 => true,
+        // Two back references: compare the types they stand for. At the same position of one
+        // recursive type these are the pair already assumed; in a contravariant position the
+        // pair is reversed and has to be checked.
+        (Type::Cycle(d1), Type::Cycle(d2)) => {
+            let (s, p) = (&type_stack.self_side, &type_stack.pattern_side);
+            if s.len() < *d1 || p.len() < *d2 {
+                return true; // Coinductive reasoning
+            }
+            let (self_target, pattern_target) = (s[s.len() - *d1], p[p.len() - *d2]);
+            check_type_relation(
+                self_target,
+                pattern_target,
+                lookup,
+                mode,
+                assumptions,
+                type_stack,
+            )
+        }
 
         // Handle cycles by looking up the type in the stack of its own side
         (Type::Cycle(depth), _) => {
